@@ -67,24 +67,24 @@ pub(crate) fn vkc11_copy_into_r() {
 
 // copy_into_row_major(dst, row_off): the src block (r x c) lands at rows row_off.., all columns; returns src rows
 #[cfg_attr(kani, kani::proof)]
-#[cfg_attr(kani, kani::unwind(9))]
+#[cfg_attr(kani, kani::unwind(11))]
 pub(crate) fn vkc11_copy_into_row_major() {
-  let s = anyv(4); let d = anyv(6);
-  // src 2x2 into dst 3x2 at row offset 0 or 1
+  let s = anyv(4); let d = anyv(8);
+  // src 2x2 into dst 4x2 at row offset 0, 1 or 2 (destination taller than the block by more than one row)
   let src: Ref<DMatrix<u8>> = Ref::new(DMatrix::from_vec(2, 2, s.clone()));
-  let dst: Ref<DMatrix<u8>> = Ref::new(DMatrix::from_vec(3, 2, d.clone()));
-  let off: usize = vk::any(); vk::assume(off <= 1);
+  let dst: Ref<DMatrix<u8>> = Ref::new(DMatrix::from_vec(4, 2, d.clone()));
+  let off: usize = vk::any(); vk::assume(off <= 2);
   vk::reach();
   let adv = src.copy_into_row_major(&dst, off);
   assert!(adv == 2, "VK: copy_into_row_major returns the number of rows of the block");
   let o = dst.borrow();
-  assert!(o.nrows() == 3 && o.ncols() == 2, "VK: destination shape unchanged");
+  assert!(o.nrows() == 4 && o.ncols() == 2, "VK: destination shape unchanged");
   let mut c = 0;
   while c < 2 {
     let mut r = 0;
-    while r < 3 {
+    while r < 4 {
       if r >= off && r < off + 2 { assert!(o[(r, c)] == s[(r - off) + c * 2], "VK: block placed at the row offset, all columns"); }
-      else { assert!(o[(r, c)] == d[r + c * 3], "VK: nothing outside the block changes"); }
+      else { assert!(o[(r, c)] == d[r + c * 4], "VK: nothing outside the block changes"); }
       r += 1;
     }
     c += 1;
